@@ -17,7 +17,7 @@ from .. import engine, sched, refcsv
 
 PROP = 'C16'
 LEVEL = 'exploration'
-RULE = ('Histories: a pool of 47 scenarios (sharing their table objects) (every query kind of C01-C05, LIKE with many patterns, aggregates, UNNEST, DISTINCT [COUNT], joins, UPDATE, parse errors, runtime '
+RULE = ('Histories: a pool of 49 scenarios (sharing their table objects) (every query kind of C01-C05, LIKE with many patterns, aggregates, UNNEST, DISTINCT [COUNT], joins, UPDATE, parse errors, runtime '
         'errors at record k, IO errors, query_csv, pandas); every ordered pair (quick) and every ordered triple (thorough) run in one interpreter, plus Hypothesis '
         'rule-based state machines over sequences of <= 6 (quick) / <= 12 (thorough) scenarios; invariant after every step: the result (output, header, warnings, error) '
         'equals the result of the same scenario run alone in a FRESH interpreter (one sub-process per scenario). Interleavings: two queries of different kinds run in two '
@@ -47,7 +47,7 @@ POOL = [
     S('order', 'select a1, a2 order by int(a2) desc'), S('order-ties', 'select a2 order by a1'), S('distinct', 'select distinct a1'), S('distinct-count', 'select distinct count a1'),
     S('top', 'select top 2 a1'), S('limit-order', 'select a1 order by a1 limit 3'), S('unnest', "select a1, UNNEST(a3.split(','))"), S('unnest-order', "select UNNEST(a3.split(',')), a1 order by a1"),
     S('agg', 'select a1, count(*), sum(int(a2)), max(a2) group by a1'), S('agg-nogroup', 'select COUNT(*), AVG(a2), MEDIAN(a2), VARIANCE(a2)'), S('agg-array', 'select a1, ARRAY_AGG(a2), ANY_VALUE(a3) group by a1'),
-    S('agg-min-lower', 'select min(a2), sum(a2)'), S('builtin-max', 'select max(int(a2), 3), sum([1, NR])'), S('like', "select a1, like(a1, a2), like(a1, '%c')", A=LIKE_T), S('like-where', "select a1 where like(a1, 'a_c') or like(a2, '\\%')", A=LIKE_T),
+    S('agg-min-lower', 'select min(a2), sum(a2)'), S('builtin-max', 'select max(int(a2), 3), sum([1, NR])'), S('like', "select a1, like(a1, a2), like(a1, '%c')", A=LIKE_T), S('like-where', "select a1 where like(a1, 'a_c') or like(a2, '\\%')", A=LIKE_T), S('like-upper', "select a1, like(a1, 'A%'), like(a1, '%C'), like(a1, 'A_C')", A=LIKE_T), S('like-lower', "select a1, like(a1, 'a%'), like(a1, '%c'), like(a1, 'a_c')", A=LIKE_T),
     S('join', 'select a1, b2 join b on a1 == b1', B=T2), S('left-join', 'select a1, b2, bNR left join b on a1 == b1', B=T2), S('join-nr', 'select a1, b2 join b on NR == bNR', B=T2),
     S('left-join-ragged', 'select a1, b2, b3 left join b on a1 == b1', B=T3), S('ragged-input', 'select NF, * order by NF', A=T3), S('join-ragged-inner', 'select a1, b.* join b on a1 == b1', B=T3),
     S('join-agg', 'select a1, count(*), ARRAY_AGG(b2) join b on a1 == b1 group by a1', B=T2), S('strict-left-fails', 'select a1, b2 strict left join b on a1 == b1', B=T2),
